@@ -3,6 +3,8 @@
 use std::num::NonZeroUsize;
 
 use crate::common::{Id, SignedAnnounce};
+#[cfg(mainline_verif)]
+use crate::verif::getrandom;
 
 use lru::LruCache;
 
@@ -15,6 +17,26 @@ const CHANCE_SCALE: f32 = 2.0 * (1u32 << 31) as f32;
 pub struct SignedPeersStore {
     info_hashes: LruCache<Id, LruCache<[u8; 32], SignedAnnounce>>,
     max_peers: NonZeroUsize,
+}
+
+#[cfg(mainline_verif)]
+#[allow(clippy::type_complexity)]
+impl SignedPeersStore {
+    pub(crate) fn verif_snapshot(&self) -> Vec<([u8; 20], Vec<([u8; 32], u64)>)> {
+        self.info_hashes
+            .iter()
+            .map(|(ih, lru)| {
+                (
+                    *ih.as_bytes(),
+                    lru.iter().map(|(k, a)| (*k, a.timestamp())).collect(),
+                )
+            })
+            .collect()
+    }
+
+    pub(crate) fn verif_caps(&self) -> (usize, usize) {
+        (self.info_hashes.cap().get(), self.max_peers.get())
+    }
 }
 
 impl SignedPeersStore {
